@@ -199,12 +199,12 @@ class VM(object):
         epoch = f.epoch
         if f.child is not None:
             ch = f.child
+            # f is running on behalf of its child from here on: ":alive - the fiber is currently
+            # running and cannot be resumed" (a descendant that tries gets an error)
+            f.status = ALIVE
             sig, val = self.cont(ch, v)
             if f.epoch != epoch:
-                # while f's suspended child chain was being continued (f itself still shows its
-                # suspended status), a descendant resumed f again: the stock interpreter then runs f
-                # a second time when the outer continuation returns, even if f has finished meanwhile
-                # (finding, see NOTES.md)
+                # safety net: f was continued re-entrantly while its child chain was being continued
                 raise Unspecified("reentrant-resume-of-chain-ancestor")
             if sig != OK and sig not in ch.mask:
                 f.status = STAT[sig]
@@ -435,6 +435,9 @@ class VM(object):
         if kind == "in":
             self.log.append((i, Kw("in")))
             return None
+        if kind == "do":
+            r = yield from self.body(f, st[2])
+            return r
         if kind == "try":
             d = self.new_fiber(f, "ie", st[2], "", None, "anon")
             r = yield from self.op_resume(f, d, None, False)
@@ -446,7 +449,7 @@ class VM(object):
             r = yield from self.op_resume(f, d, None, False)
             return self.L(i, (d.status != "error", r))
         if kind == "withdyns":
-            body = [("setdyn", i, st[2])] + list(st[3])
+            body = [("setdyn", i, st[2]), ("do", i, list(st[3]))]
             d = self.new_fiber(f, "p", body, "", None, "anon")
             r = yield from self.op_resume(f, d, None, False)
             return self.L(i, r)
